@@ -12,21 +12,33 @@ from .common import coq_bool, coq_list, coq_str
 
 PID = "C05"
 PROPS_FILE = "props/C05.v"
-MODEL_TARGETS = ["model/Crash.vo", "model/GraphDump.vo", "model/GraphInv.vo", "model/CrashStartup.vo"]
+MODEL_TARGETS = ["model/Crash.vo", "model/GraphDump.vo", "model/GraphInv.vo", "model/CrashStartup.vo",
+                 "model/CrashEngine.vo"]
 RULE = ("E3 crash runs on the real director: a project (8 hand-written families: chain, diamond, sub-plan, "
         "amended inputs/outputs with deferral, optional chain whose consumer is dropped, dropped steps with nested "
         "directories and volatile outputs, newly declared static files + env change, failing step; plus "
-        "harness/e3_gen projects) is built up to the last phase of its history; the last build runs in a forked "
-        "child that os._exit()s at a crash point (before / after the k-th committing transaction, or at the k-th "
-        "file-system stage of a simulated command, multi-part writes leave partial outputs); the database left "
-        "behind is dumped, opened by the real Workflow in strict mode and run through the real "
-        "reset_interrupted_steps; a restart build runs on the same directory and is compared with the "
-        "uninterrupted reference (exception at open, ERROR log, return-code class, file contents, directories, "
-        "canonical graph with digests, rejected declarations, re-execution of every step found RUNNING). "
-        "quick: the three witnesses (D6, D6b, D13) + 10 seeded points on each of 5 projects; thorough: every point "
-        "of 30 projects. A point is non-trivial when the child was really killed there and the killed "
-        "transaction wrote something, a step was RUNNING/CHECKING, a file was UNCONFIRMED, or it is a stage "
-        "point; distinct by (project, point)")
+        "harness/e3_gen projects; plus 14 STARTUP families: one project with env-tracking steps, an amended "
+        "variable, a static glob and a chain, where exactly one thing changed since the last complete build that only "
+        "the startup sequence of the next director can notice -- tracked variable changed / unset / set, two "
+        "variables, amended variable, source content, deleted source, glob match added / deleted, output deleted / "
+        "tampered, plan text, a previous build killed while a command ran, or a combination) is built up to the last "
+        "phase of its history; the last build runs in a forked child that os._exit()s at a crash point (before / "
+        "after the k-th committing transaction, or at the k-th file-system stage of a simulated command, multi-part "
+        "writes leave partial outputs); the database left behind is dumped, opened by the real Workflow in strict "
+        "mode and run through the real reset_interrupted_steps; a restart build runs on the same directory and is "
+        "compared with the uninterrupted reference (exception at open, ERROR log, return-code class, file contents, "
+        "directories, canonical graph with digests, rejected declarations, re-execution of every step found RUNNING). "
+        "Startup families are killed after EVERY commit of their startup sequence (everything before the first "
+        "Scheduler.pop_next_job commit), and there additionally: the tables right after the startup sequence of the "
+        "restarted director (step states, file states and hashes, env_var values, nglob match sets) equal those "
+        "after the uninterrupted startup sequence, every command the uninterrupted build executed is executed by "
+        "the restart, and the model of the startup sequence (with the GENERATED block structure of rescan_env_vars) "
+        "run on the crashed tables and the observed world ends in the tables of the real successor. "
+        "quick: the three witnesses (D6, D6b, D13) + 10 seeded points on each of 5 projects + 7 startup cases (one "
+        "per class of evidence) at all their startup points; thorough: every point of 30 projects + 28 startup "
+        "cases. A point is non-trivial when the child was really killed there and the killed transaction wrote "
+        "something, a step was RUNNING/CHECKING, a file was UNCONFIRMED, or it is a stage point; distinct by "
+        "(project, point)")
 TRUSTED_BASE = [
     "Coq 8.16.1 kernel; vm_compute in the refutation witnesses, Examples and the correspondence evaluation",
     "Print Assumptions: Closed under the global context for every C05 theorem",
@@ -34,8 +46,15 @@ TRUSTED_BASE = [
     "open_db, revert_optional, delete_detached_q, remove_deletable, crash windows), tied to the code by "
     "translator/gen_crash.py (statement shapes of Trellis.initialize, Builder.finalize, finalize.py, "
     "Executor.execute_job, startup.py, director.serve) and by the crash-state correspondence below",
+    "hand-written model coq/model/CrashStartup.v (the startup sequence transaction by transaction on Graph.st + "
+    "env_var values + nglob table; rescan_env_vars interpreted from the generated block structure), tied by the "
+    "translator (transaction structure of rescan_env_vars / rescan_nglobs / persist_nglob_matches / _run_hash_job / "
+    "rescan_files) and by the startup correspondence (model run on every crashed startup state against the tables "
+    "of the real successor); coq/model/Engine.v (owned by C01, tied by its own correspondence) and "
+    "coq/model/CrashEngine.v (crash states of the engine: prefix of dispatch decisions + one torn step)",
     "harness/e3.py (real serve() in-process, simulated step commands, os._exit at commit/stage points) and "
-    "harness/c05_crash.py (comparison, SQL dump of the crashed database)",
+    "harness/c05_crash.py (comparison, SQL dump of the crashed database, observation of the world: real "
+    "FileHash.refreshed, NamedGlob.glob, build environment)",
     "SQLite WAL atomicity for a killed process: a transaction that did not reach COMMIT leaves no trace, a "
     "committed one is complete (synchronous=OFF is only unsafe for an operating-system crash or power loss)",
 ]
@@ -47,6 +66,13 @@ ASSUMPTIONS = [
     "theorems about transaction histories take inv_b / inv_succeeded_b / inv_running_nohash_b of the crashed state "
     "as hypotheses (C09 proves them for reachable states); they are evaluated on every crashed database here",
     "watch-phase transactions are not interrupted by this check (E3 forks non-watch builds only)",
+    "the startup theorems take a world (environment, disk, glob scans) that does not change during startup and "
+    "unique step / file labels (a conjunct of C09's invariant, evaluated on every crashed database); hash jobs of "
+    "rescan_files are applied in row order (E3 runs njob=1); Workflow.initialize_boot re-initialising the boot step "
+    "on a non-empty database is outside the model",
+    "C05_full is proved on the static-DAG fragment of C01's engine only (no plan steps during the build, amends, "
+    "optional steps, cleanup, failing steps); the engine-level crash states are connected to the database level by "
+    "C05_started_then_crash and by the oracle, not by a refinement proof",
 ]
 
 KIND = {"root": "KRoot", "file": "KFile", "step": "KStep", "st": "KTree"}
